@@ -134,6 +134,10 @@ func computeCallExpression(call *CallExpression, prependPath string, jsonHelperP
 	}
 
 	_jsonPath, err = jp.ParseString(prop.Path)
+	if err != nil {
+		// Not a path (`a.("x")`): report the error instead of slicing an empty expression below.
+		return
+	}
 
 	segments := strings.Split(prop.Path, ".")
 	_helper := &segments[len(segments)-1]
